@@ -255,6 +255,12 @@ impl G {
         // the same coordinates with every zero written as negative zero (0.0 == -0.0: the same point set)
         let nz = self.map(&|c| Coord { x: if c.x == 0.0 { -0.0 } else { c.x }, y: if c.y == 0.0 { -0.0 } else { c.y } }, true);
         out.push(("negzero".into(), nz));
+        // ... and with zeros of MIXED sign: the zeros of every second coordinate (in traversal order) negative, so that equal
+        // coordinates of one geometry are written in both spellings
+        let k = std::cell::Cell::new(0usize);
+        let mz = self.map(&|c| { let i = k.get(); k.set(i + 1);
+            if i % 2 == 1 { Coord { x: if c.x == 0.0 { -0.0 } else { c.x }, y: if c.y == 0.0 { -0.0 } else { c.y } } } else { c } }, true);
+        out.push(("mixedzero".into(), mz));
         // any geometry as a one-member collection
         out.push(("gc1".into(), G::GeometryCollection(GeometryCollection::new_from(vec![self.geometry()]))));
         out
